@@ -147,8 +147,8 @@ theorem trace_is_pure (c : Ctx) (args : List Arg) : (inner c args).1.all (Node.d
 /-! ## The checker on real graphs -/
 
 /-- An execution of a compiled graph, as a schedule of application indices: every application reachable from
-the output is evaluated exactly once, and nothing else is (C04 `emit_once`; assumed here, tested on the emitted
-text by `tools/props/c13.py`). -/
+the output is evaluated exactly once, and nothing else is.  A hypothesis of `checker_sound` below; proved for the
+program the code generator emits in `Props/C13Exec.lean` (`exec_from_compile`, `checker_sound_compiled`). -/
 def Exec (g : Graph) (sched : List Nat) : Prop := sched.Nodup ∧ ∀ i, i ∈ sched ↔ i ∈ reachable g
 
 /-- **Soundness of the checker**: if `factoryOK g d` holds then, in every execution of `g`, for every argument
